@@ -27,6 +27,7 @@ RULE = (
     "(d) after the flow was saved twice and reloaded from the second copy, log_prob on the draws is unchanged (1e-6; float32: the allowance of (b)) and (a) still holds; (e) Aspire.sample_flow returns "
     "consistent (x, log q) pairs. Non-trivial = bounded or affine transform active and the flow trained."
 )
+RULE += " " + ('The (draw, log q) pair is also requested in two other output namespaces (xp argument) and compared with log_prob at the converted draws.')
 ASSUMPTIONS = [
     "quadrature: Gauss-Legendre panels in the unbounded coordinate placed at quantiles of the flow's own draws; mass outside +-12 sd of the mapped training data is "
     "assumed < 1e-3 for the barely trained autoregressive flows used (Gaussian tails)",
